@@ -29,7 +29,7 @@ func init() {
 // modelClock implements clock.Clock on top of the simulated clock.
 type modelClock struct{ simClock }
 
-func (c *modelClock) At(t time.Time) <-chan time.Time       { return c.After(t.Sub(c.Peek())) }
+func (c *modelClock) At(t time.Time) <-chan time.Time        { return c.After(t.Sub(c.Peek())) }
 func (c *modelClock) After(d time.Duration) <-chan time.Time { return time.After(d) }
 func (c *modelClock) Every(d time.Duration) clock.Ticker     { panic("not used") }
 
